@@ -53,6 +53,7 @@ def image_ty(ci, cls, functor, t):
 def run(tier, seed):
     import core_impl as ci
     rep = Report("C04", tier, seed)
+    ci.CHECK_PURITY = True      # every operation must leave its arguments as they were
     proof_ok = common.proof_stage(rep, "C04")
     rng = random.Random(seed + 4)
     for cname in ("monoidal", "rigid"):
@@ -86,6 +87,7 @@ def run(tier, seed):
                                        "replay": base.snippet(cname, lhs)})
     ci.CALLABLE_FUNCTORS = False
     bubble_stream(rep, random.Random(seed + 404), 150 if tier == "quick" else 2500)
+    pro_stream(rep, random.Random(seed + 405), 80 if tier == "quick" else 1500)
     base.settle(rep, "C04", proof_ok, "C04")
     return rep.finish(
         rule="classes monoidal and rigid, object/box maps given as dicts and as callables: random functors "
@@ -96,6 +98,53 @@ def run(tier, seed):
         assumptions=["laws are decided by the implementation's own == on both sides; each side is also compared "
                      "with the model", "F19 (dagger law on composite swaps) is a listed known finding"],
         checker_cmd="make -C coq Props/C04.vo  (coqc 8.16.1, Print Assumptions parsed)")
+
+
+def pro_stream(rep, rng, count):
+    """Oracle-only stream on the real objects: diagrams typed over PRO (wires named 1) and functors
+    whose object map is a DICT keyed by PRO(1) (monoidal) or given as a callable; every image has
+    the images of dom / cod and F(a >> b) = F(a) >> F(b), F(a @ b) = F(a) @ F(b)."""
+    from discopy import monoidal
+    PRO, Box, Id, Functor = monoidal.PRO, monoidal.Box, monoidal.Id, monoidal.Functor
+    bad = 0
+    for k in range(count):
+        m = rng.randint(0, 2)
+        ob = {PRO(1): PRO(m)} if k % 2 == 0 else (lambda t: PRO(m * len(t)))
+        ar = {}
+
+        def box(name, a, b):
+            bx = Box(name, PRO(a), PRO(b))
+            ar[bx] = Box("F" + name, PRO(m * a), PRO(m * b))
+            return bx
+        a, b, c = rng.randint(0, 2), rng.randint(0, 2), rng.randint(0, 2)
+        f, g, h = box("f", a, b), box("g", b, c), box("h", rng.randint(0, 2), rng.randint(0, 2))
+        rep.count("stream:pro-functors")
+        what = None
+        try:
+            F = Functor(ob, ar, ob_factory=PRO)
+            d = f >> g
+            w = f @ h
+            for name, dd in (("f >> g", d), ("f @ h", w), ("Id(PRO(2))", Id(PRO(2))), ("f", f)):
+                Fd = F(dd)
+                if len(Fd.dom) != m * len(dd.dom) or len(Fd.cod) != m * len(dd.cod) \
+                        or Fd.dom != F(dd.dom) or Fd.cod != F(dd.cod):
+                    what = "F(%s) : %r -> %r, expected %d -> %d wires" % (name, Fd.dom, Fd.cod, m * len(dd.dom),
+                                                                        m * len(dd.cod))
+                    break
+            if what is None and F(d) != F(f) >> F(g):
+                what = "F(f >> g) != F(f) >> F(g) over PRO"
+            if what is None and F(w) != F(f) @ F(h):
+                what = "F(f @ h) != F(f) @ F(h) over PRO"
+        except Exception as exc:   # noqa: every request here is well-typed
+            what = "functor over PRO (%s object map) raised %s: %s" % (
+                "dict" if k % 2 == 0 else "callable", type(exc).__name__, exc)
+        if what:
+            bad += 1
+            rep.count("oracle:pro-functor:FAIL")
+            if bad <= 3:
+                rep.violation("functor on PRO-typed diagrams: " + what, {"image of PRO(1)": m})
+        else:
+            rep.count("oracle:pro-functor:pass")
 
 
 def bubble_stream(rep, rng, count):
